@@ -374,7 +374,32 @@ fn run_case(scratch: &Path, jj: &Path, i: usize, mut rng: Rng) -> CaseOut {
     let mut desc_counter = 0u64;
     let mut n_modelled = 0u64;
     let mut stop = false;
-    for kind in plan {
+    // edge pool: after the ordinary prefix the user makes bookmark b0 (and its ancestors)
+    // immutable; restoring an earlier view whose working-copy commit is at or below b0 then
+    // takes the "working-copy commit became immutable" path of finish_transaction
+    let flip_at = if rng.chance(1, 5) { Some(n_normal) } else { None };
+    for (step, kind) in plan.into_iter().enumerate() {
+        if flip_at == Some(step) {
+            let o = s.run(&repo, &["bookmark", "set", "b0", "-r", "@", "--allow-backwards"]);
+            let _ = o;
+            let ops = log.new_ops();
+            if !ops.is_empty() {
+                events.push(format!("(C41.CNormal {}, C41.ONothing)", coq::list(ops.iter(), op_term)));
+            }
+            let o = s.run(&repo, &["new"]);
+            let _ = o;
+            let ops = log.new_ops();
+            if !ops.is_empty() {
+                events.push(format!("(C41.CNormal {}, C41.ONothing)", coq::list(ops.iter(), op_term)));
+            }
+            let o = s.run(
+                &repo,
+                &["config", "set", "--repo", "revset-aliases.\"immutable_heads()\"", "present(b0)"],
+            );
+            if o.ok {
+                bump("immutable-config", &mut counts);
+            }
+        }
         if stop {
             break;
         }
@@ -458,7 +483,21 @@ fn run_case(scratch: &Path, jj: &Path, i: usize, mut rng: Rng) -> CaseOut {
                 if o.timed_out {
                     return failed("timeout");
                 }
-                let ops = log.new_ops();
+                let mut ops = log.new_ops();
+                // a command may first write a snapshot operation (e.g. to move the working
+                // copy off a commit that became immutable); those are ordinary operations
+                let own_prefix = match kind {
+                    1 => "undo: ",
+                    2 => "redo: ",
+                    3 => "restore to operation ",
+                    _ => "revert operation ",
+                };
+                let own_at = ops.iter().position(|o| o.desc.starts_with(own_prefix)).unwrap_or(ops.len());
+                if own_at > 0 {
+                    let pre: Vec<OpRec> = ops.drain(..own_at).collect();
+                    events.push(format!("(C41.CNormal {}, C41.ONothing)", coq::list(pre.iter(), op_term)));
+                    bump("snapshot-before-command", &mut counts);
+                }
                 n_modelled += 1;
                 let name: &'static str = match kind {
                     1 => "undo",
